@@ -228,7 +228,7 @@ class Sim(object):
                 raise _Result()
             elif op == "mk":
                 self.defs[st["task"]["id"]] = st["task"]
-            elif op in ("sync", "cancel", "reyield", "itemvalue"):
+            elif op in ("sync", "cancel", "reyield", "itemvalue", "syncref"):
                 raise NotImplementedError("the round simulator does not model %r statements" % (op,))
             else:
                 raise AssertionError(op)
